@@ -322,6 +322,20 @@ fn build(sc: &Sc) -> World {
     // give the snapshot entries digests of *nothing in particular*? no: leave them out; but keep one
     // hashes object in the timestamp so that the level exists there
     let mut signed_ts = timestamp_signed(1, FAR, &Meta { version: 1, length: None, sha256: None });
+    if sc.mutation == Mutation::RoleSwap {
+        // Make each of the two documents a complete stand-in for the other as far as content goes
+        // (both `meta` maps are open maps, so the additional entries are legal): the timestamp also
+        // lists targets.json and d1.json, the snapshot also lists snapshot.json. Then nothing but
+        // the role binding of the signature stands between a swapped document and acceptance.
+        let v1 = || Meta { version: 1, length: None, sha256: None }.json();
+        if let Some(J::Obj(m)) = signed_ts.get_mut("meta") {
+            m.push(("targets.json".into(), v1()));
+            m.push(("d1.json".into(), v1()));
+        }
+        if let Some(J::Obj(m)) = signed_snap.get_mut("meta") {
+            m.push(("snapshot.json".into(), v1()));
+        }
+    }
 
     let target: &mut J = match sc.role {
         RoleT::Root => &mut signed_r2,
@@ -504,7 +518,7 @@ impl Check for C12 {
         "C12"
     }
     fn rule(&self) -> String {
-        "a validly signed foreign document of one role type (root, timestamp, snapshot, targets, delegated targets) carrying 0..3 unknown members at one struct-like object level (names incl. space, '!', quote, backslash, non-ASCII, prefix pairs) and optionally prefix-ordered target names; exactly one in-flight change: none, member re-ordering, whitespace, junk signature, scalar change / member insert / delete / duplicate at any position, insertion of a sibling member whose name differs from an existing one only by a backslash or quote (content-changing mutations are loaded 10 times, worst attempt judged, because the client's maps are randomly seeded), _type rewrite, timestamp<->snapshot swap under a shared key; pins are version-only so signatures are the only defence; non-trivial = a mutation was applied to a document the client fetched, or unknown members were present; distinct = distinct canonical trace".into()
+        "a validly signed foreign document of one role type (root, timestamp, snapshot, targets, delegated targets) carrying 0..3 unknown members at one struct-like object level (names incl. space, '!', quote, backslash, non-ASCII, prefix pairs) and optionally prefix-ordered target names; exactly one in-flight change: none, member re-ordering, whitespace, junk signature, scalar change / member insert / delete / duplicate at any position, insertion of a sibling member whose name differs from an existing one only by a backslash or quote (member-adding mutations are loaded 10 times, other content-changing ones 3 times, worst attempt judged, because the client's maps are randomly seeded), _type rewrite, timestamp<->snapshot swap under a shared key; pins are version-only so signatures are the only defence; non-trivial = a mutation was applied to a document the client fetched, or unknown members were present; distinct = distinct canonical trace".into()
     }
     fn assumptions(&self) -> Vec<String> {
         vec![
@@ -611,7 +625,12 @@ impl Check for C12 {
         // through may depend on an iteration order drawn per parse: a content-changing mutation is
         // loaded several times and judged by the worst attempt. Only the aggregate is traced (on a
         // tree where the property holds every attempt ends the same way).
-        let attempts = if matches!(sc.mutation, Mutation::None | Mutation::Reorder | Mutation::Whitespace | Mutation::JunkSignature | Mutation::RoleSwap) { 1 } else { ATTEMPTS };
+        let attempts = match sc.mutation {
+            Mutation::None | Mutation::Reorder | Mutation::Whitespace | Mutation::JunkSignature | Mutation::RoleSwap => 1,
+            // mutations that add a member are the ones whose fate can hinge on map iteration order
+            Mutation::Insert(_) | Mutation::InsertConfusable { .. } | Mutation::Duplicate { .. } => ATTEMPTS,
+            _ => 3,
+        };
         let mut res = self.load_once(&w, &transport, role);
         for _ in 1..attempts {
             let bad = |r: &Result<(u64, Value), (Class, String)>| match r {
@@ -673,6 +692,21 @@ impl Check for C12 {
             (Err(_), _) => false,
         };
         if sc.mutation == Mutation::RoleSwap {
+            // the same question put to the public verification API directly
+            if w.applied {
+                use tough::schema::{Root, Signed, Snapshot, Timestamp};
+                let name_snap = if sc.consistent { "1.snapshot.json" } else { "snapshot.json" };
+                let root: Option<Signed<Root>> = serde_json::from_slice(&w.shipped).ok();
+                let api = root.and_then(|root| match sc.role {
+                    RoleT::Timestamp => serde_json::from_slice::<Signed<Snapshot>>(&w.files[name_snap]).ok().map(|x| root.signed.verify_role(&x).is_ok()),
+                    RoleT::Snapshot => serde_json::from_slice::<Signed<Timestamp>>(&w.files["timestamp.json"]).ok().map(|x| root.signed.verify_role(&x).is_ok()),
+                    _ => None,
+                });
+                o.ev(format!("api_swap_verdict={api:?}"));
+                if api == Some(true) {
+                    o.violate("role-swap-accepted-by-verify-role", format!("Root::verify_role accepted a {:?} document parsed as the other of timestamp/snapshot", sc.role));
+                }
+            }
             if w.applied && res.is_ok() {
                 o.violate("role-swap-accepted", format!("a {:?} document was accepted in place of the other of timestamp/snapshot", sc.role));
             } else if w.applied {
